@@ -299,3 +299,81 @@ func H_C10_history2() {
 	vfAssert(gotErr == wantErr, "the same error-or-not whatever ran before")
 	vfAssert(gotOut == wantOut, "the same bytes whatever ran before")
 }
+
+// H_C10_laterLoads: a template is executed, then another template that refers to it (extends
+// it - with and without blocks of its own, with and without an import that defines the same
+// block names - or imports it, or includes it) is loaded and executed - directly, or lazily
+// through include / exec from a third one - and then the first template is executed again:
+// it renders what it rendered before (loading a template never changes one already parsed).
+//
+//gosym:reach compared
+func H_C10_laterLoads() {
+	page := []string{
+		`{{ extends "/base.jet" }}{{ import "/lib.jet" }}`,
+		`{{ extends "/base.jet" }}{{ import "/lib.jet" }}{{ block foot() }}page foot{{ end }}`,
+		`{{ extends "/base.jet" }}{{ block title() }}page title{{ end }}`,
+		`{{ extends "/base.jet" }}`,
+		`{{ import "/base.jet" }}{{ import "/lib.jet" }}{{ yield title() }}`,
+		`{{ extends "/mid.jet" }}{{ import "/lib.jet" }}`,
+		`{{ import "/lib.jet" }}{{ include "/base.jet" }}`,
+	}[ndChoice("page", 7)]
+	via := ndChoice("via", 3)
+	set := hxSet(nil,
+		"/base.jet", `{{ block title() }}base title{{ end }}|{{ block foot() }}base foot{{ end }}|{{ yield title() }}`,
+		"/lib.jet", `{{ block title() }}lib title{{ end }}{{ block extra() }}x{{ end }}`,
+		"/mid.jet", `{{ extends "/base.jet" }}`,
+		"/page.jet", page,
+		"/inc.jet", `{{ include "/page.jet" }}`,
+		"/exec.jet", `{{ exec("/page.jet") }}`,
+	)
+	want := "base title|base foot|base title"
+	o1, e1 := hxExec(set, "/base.jet", nil, nil)
+	o2, e2 := hxExec(set, []string{"/page.jet", "/inc.jet", "/exec.jet"}[via], nil, nil)
+	o3, e3 := hxExec(set, "/base.jet", nil, nil)
+	l1, el := hxExec(set, "/lib.jet", nil, nil)
+	vfReach("compared")
+	vfNote(o2)
+	vfNote(o3)
+	vfAssert(e1 == nil && e2 == nil && e3 == nil && el == nil, "renders")
+	vfAssert(o1 == want && o3 == want, "the first template renders the same before and after the other one was loaded")
+	vfAssert(l1 == "lib titlex", "so does the imported one")
+}
+
+// H_C10_nilVariables: executions that pass no variables (nil VarMap) one after another on
+// one goroutine: a variable that a function declares in the top-most scope of the first
+// execution (Runtime.LetGlobal, or Let / SetOrLet at the top level) is not there in the
+// next one, whether that one passes variables or not.
+//
+//gosym:reach compared
+func H_C10_nilVariables() {
+	how := ndChoice("how", 3)
+	firstNil, secondNil := ndBool("firstNil"), ndBool("secondNil")
+	set := hxSet(nil,
+		"/declare.jet", `{{ remember("secret") }}[{{ secret }}]`,
+		"/probe.jet", `{{ isset(secret) ? secret : "unset" }}`,
+	)
+	set.AddGlobalFunc("remember", func(a Arguments) reflect.Value {
+		name := a.Get(0).String()
+		switch how {
+		case 0:
+			a.Runtime().LetGlobal(name, "S")
+		case 1:
+			a.Runtime().Let(name, "S")
+		default:
+			a.Runtime().SetOrLet(name, "S")
+		}
+		return reflect.ValueOf("")
+	})
+	mk := func(isNil bool) VarMap {
+		if isNil {
+			return nil
+		}
+		return make(VarMap)
+	}
+	o1, e1 := hxExec(set, "/declare.jet", mk(firstNil), nil)
+	o2, e2 := hxExec(set, "/probe.jet", mk(secondNil), nil)
+	vfReach("compared")
+	vfNote(o2)
+	vfAssert(e1 == nil && o1 == "[S]", "the first execution sees its own declaration")
+	vfAssert(e2 == nil && o2 == "unset", "the next execution starts without it")
+}
